@@ -5,6 +5,17 @@ from verifkit import read_lines, REPO, CACHE
 REQUIRED = [
     "DaeVerif.C10.Props.kernel_mirrors_owners",
     "DaeVerif.C10.Props.kernel_no_orphan",
+    "DaeVerif.C10.Props.tracker_indexes_agree",
+    "DaeVerif.C10.Props.batches_minimal",
+    "DaeVerif.C10.Props.resync_sends_nothing",
+    "DaeVerif.C10.Props.table_mirrors_cache_partial",
+    "DaeVerif.C10.Props.table_no_orphan_partial",
+    "DaeVerif.C10.Props.table_eq_spec_partial",
+    "DaeVerif.C10.Props.driver_mirror_flag_partial",
+    "DaeVerif.C10.Props.table_mirrors_tracker_always",
+    "DaeVerif.C10.Props.no_work_no_stale",
+    "DaeVerif.C10.Props.look_then_work_fresh",
+    "DaeVerif.C10.Props.table_mirrors_cache_full_fails",
 ]
 
 HOOK_DECLS = '''
@@ -108,6 +119,7 @@ def run(ctx):
                         ctx.report(f"kernel table does not mirror the live cache after `{op[:160]}` (no stale deferred refresh involved): {im[:200]}",
                                    {"stream": name, "line": i + 1, "op": op, "impl": im, "history": hist})
     handle_stale_finding(ctx)
+    handle_rollback_probe(ctx)
 
     stats = json.load(open(os.path.join(ctx.out, "c10.stats.json")))
     ctx.samples = stats["samples"][:6] + read_lines(streams["c10c"][0])[1:5]
@@ -150,3 +162,30 @@ def handle_stale_finding(ctx):
     else:
         ctx.say(f"FINDING-CANDIDATE property=C10 key={key} {what[:600]}")
         ctx.cov["finding_candidate"] = {"key": key, "what": what, "history": hist, "impl": im}
+
+
+def handle_rollback_probe(ctx):
+    """Outside the property's alphabet (reload rollback), reported separately: clearReloadDomainRoutingMap on a
+    generation whose tracker is populated, then the cache replay — theorem resync_sends_nothing says the
+    replay sends nothing, so the table stays empty."""
+    path = os.path.join(ctx.out, "c10.rollback.txt")
+    if not os.path.exists(path):
+        ctx.say("HARNESS-FAILED rollback probe produced no output")
+        return
+    line = open(path).read().strip()
+    ctx.cov["rollback_probe"] = line
+    f = fields(line)
+    if line.startswith("crash:") or f.get("before_mirror") != "1":
+        ctx.report("rollback probe did not run as designed: " + line[:300], {"probe": line})
+        return
+    if f.get("after_mirror") == "1":
+        return
+    key = "c10-rollback-clear-keeps-tracker"
+    what = ("RebuildReloadDatapath clears domain_routing_map but keeps the generation's populated tracker: the cache replay "
+            "re-syncs every owner with the snapshot the tracker already holds and sends nothing, the table stays empty while the "
+            "cache is populated: " + line)
+    if any(k.get("kind") == "open" and k.get("key") == key for k in ctx.known):
+        ctx.report(what, {"probe": line}, key=key)
+    else:
+        ctx.say(f"FINDING-CANDIDATE property=C10 key={key} (outside the property's history alphabet) {what[:600]}")
+        ctx.cov.setdefault("finding_candidates_outside_alphabet", []).append({"key": key, "what": what})
